@@ -77,6 +77,54 @@ class Analysis:
                     unres += 1
         return res, unres
 
+    # -------------------------------------------------------------- single-use iterators
+    ITER_BUILTINS = ("map", "filter", "zip", "iter", "reversed", "enumerate")
+
+    @staticmethod
+    def iter_reuse_in(node: ast.AST, is_generator_call: ty.Callable[[ast.Call], bool]) -> list[tuple[str, ast.AST, list[ast.Name]]]:
+        """locals bound once to a single-use iterator (generator expression, call of a generator
+        function, map/filter/zip/...) and read more than once: the second reader sees it exhausted."""
+        defs: dict[str, list[ast.AST]] = {}
+        for n in walk_own(node):
+            if isinstance(n, ast.Assign) and len(n.targets) == 1 and isinstance(n.targets[0], ast.Name):
+                defs.setdefault(n.targets[0].id, []).append(n.value)
+            elif isinstance(n, ast.NamedExpr) and isinstance(n.target, ast.Name):
+                defs.setdefault(n.target.id, []).append(n.value)
+        out = []
+        for nm, vs in defs.items():
+            if len(vs) != 1:
+                continue
+            v = vs[0]
+            single = isinstance(v, ast.GeneratorExp) or (isinstance(v, ast.Call) and ((isinstance(v.func, ast.Name) and v.func.id in Analysis.ITER_BUILTINS) or is_generator_call(v)))
+            if not single:
+                continue
+            loads = [n for n in walk_own(node) if isinstance(n, ast.Name) and n.id == nm and isinstance(n.ctx, ast.Load)]
+            loads.sort(key=lambda n: (n.lineno, n.col_offset))
+            if len(loads) >= 2:
+                out.append((nm, v, loads))
+        return out
+
+    def iter_reuse(self, fn: FuncInfo):
+        def is_gen(call: ast.Call) -> bool:
+            tg = [t for t in self.rs.resolve_call(call, fn).repo_targets if isinstance(t, FuncInfo)]
+
+            def yields_iterator(t: FuncInfo) -> bool:
+                if any(isinstance(k, (ast.Yield, ast.YieldFrom)) for k in walk_own(t.node)):
+                    return True
+                # some return path hands out a single-use iterator (itertools.chain(...), map(...), a generator expression)
+                for r in walk_own(t.node):
+                    if isinstance(r, ast.Return) and r.value is not None:
+                        v = r.value
+                        if isinstance(v, ast.GeneratorExp):
+                            return True
+                        if isinstance(v, ast.Call) and ((isinstance(v.func, ast.Name) and v.func.id in Analysis.ITER_BUILTINS) or (dotted(v.func) or "").startswith("itertools.")):
+                            return True
+                return False
+
+            return bool(tg) and any(yields_iterator(t) for t in tg)
+
+        return self.iter_reuse_in(fn.node, is_gen)
+
     # -------------------------------------------------------------- call graph
     def callees(self, fn: FuncInfo) -> list[FuncInfo]:
         out = []
